@@ -1,8 +1,13 @@
 package props
 
 import (
+	"context"
 	"os"
 	"testing"
+	"time"
+
+	"github.com/oneconcern/datamon/pkg/core"
+	"github.com/oneconcern/datamon/pkg/model"
 
 	context2 "github.com/oneconcern/datamon/pkg/context"
 	"github.com/oneconcern/datamon/pkg/storage"
@@ -45,4 +50,54 @@ var nopLogger = zap.NewNop()
 
 func TestMain(m *testing.M) {
 	os.Exit(m.Run())
+}
+
+// ---- bundle helpers -------------------------------------------------------------------------
+
+func mkRepo(stores context2.Stores, name string) error {
+	return core.CreateRepo(model.RepoDescriptor{Name: name, Description: "verif repo " + name, Timestamp: time.Now(),
+		Contributor: model.Contributor{Name: "v", Email: "v@x.io"}}, stores)
+}
+
+func newBundleDesc(L int, msg string) *model.BundleDescriptor {
+	bd := model.NewBundleDescriptor(model.Message(msg), model.BundleContributor(model.Contributor{Name: "v", Email: "v@x.io"}))
+	bd.LeafSize = uint32(L)
+	return bd
+}
+
+// srcStore builds an in-memory consumable store holding the given files.
+func srcStore(files map[string][]byte) *lib.MemStore {
+	s := lib.NewMemStore("src")
+	s.NoCRC = true
+	for k, v := range files {
+		s.RawSet(k, v)
+	}
+	return s
+}
+
+// uploadFiles uploads files as a new bundle of repo (entries per index file = epf; 0 = the public default path).
+func uploadFiles(stores context2.Stores, repo string, files map[string][]byte, L int, epf uint, opts ...core.BundleOption) (*core.Bundle, error) {
+	o := append([]core.BundleOption{core.Repo(repo), core.ContextStores(stores), core.ConsumableStore(srcStore(files)),
+		core.BundleDescriptor(newBundleDesc(L, "upload")), core.Logger(nopLogger)}, opts...)
+	b := core.NewBundle(o...)
+	var err error
+	if epf == 0 {
+		err = core.Upload(context.Background(), b)
+	} else {
+		err = core.VerifUpload(context.Background(), b, epf, nil)
+	}
+	return b, err
+}
+
+// downloadBundle publishes bundle id of repo into dest.
+func downloadBundle(stores context2.Stores, repo, id string, dest storage.Store, epf uint, opts ...core.BundleOption) (*core.Bundle, error) {
+	o := append([]core.BundleOption{core.Repo(repo), core.ContextStores(stores), core.ConsumableStore(dest), core.BundleID(id), core.Logger(nopLogger)}, opts...)
+	b := core.NewBundle(o...)
+	var err error
+	if epf == 0 {
+		err = core.Publish(context.Background(), b)
+	} else {
+		err = core.VerifPublish(context.Background(), b, epf, nil)
+	}
+	return b, err
 }
